@@ -360,3 +360,62 @@ def xMid : List IoStep := (List.range 120).map fun i => { m := i / 2, cap := 40,
 #guard (xRun true xPayload xStreamEx xPostEx xHuge).2.2 == (xRun true xPayload xStreamEx xPostEx xEarly).2.2
 #guard (xRun true xPayload xStreamEx xPostEx xHuge).2.2 == (xRun true xPayload xStreamEx xPostEx xMid).2.2
 #guard (xRun true xPayload xStreamEx xPostEx xHuge).2.2.consumed == c11Head.enc.length + xHead.enc.length + 5
+
+/-! C01 across a redirect: the flow `as_new_flow` builds is again a valid start of a (bodiless) exchange, and
+    the stream position is handed over exactly. -/
+
+theorem newMethodOf_nobody (m nm : Method) (s : Nat) (h : newMethodOf m s = some nm) : nm.needBody = false := by
+  unfold newMethodOf at h
+  by_cases hs : (s == 307 || s == 308) = true
+  · simp only [hs, if_true] at h
+    cases hn : m.needBody with
+    | true => simp [hn] at h
+    | false =>
+      simp only [hn, Bool.false_eq_true, if_false] at h
+      split at h
+      · cases h
+      · injection h with h; rw [← h]; exact hn
+  · simp only [hs, Bool.false_eq_true, if_false] at h
+    split at h
+    · injection h with h
+      rename_i hg
+      rw [← h]
+      cases m <;> simp [Method.needBody] at hg ⊢
+    · injection h with h; rw [← h]; rfl
+
+/-- **C01 (next hop).** Whatever redirect was followed — any status of the method table, any resolved
+    target, either credentials policy — the new flow is a valid bodiless start (`SendSetup`), provided its
+    request passes `analyze_request` (C17 says exactly when): so every theorem of the composed exchange
+    applies to each hop of a redirect chain in turn. -/
+theorem C01_follow_setup (prev : AReq) (m nm : Method) (s : Nat) (uri : Uri) (sameHost : Bool)
+    (hm : newMethodOf m s = some nm)
+    (han : (followFlow prev nm uri sameHost).call.analyzeRequest.2 = .ok ()) :
+    SendSetup (followFlow prev nm uri sameHost) (followFlow prev nm uri sameHost).call.analyzeRequest.1.req BodyWriter.newNone [] := by
+  have hnb := newMethodOf_nobody m nm s hm
+  have hspec := analyzeRequest_spec (followFlow prev nm uri sameHost).call (Or.inr (by simp [followFlow, Flow.new, MAX_EXTRA]))
+  obtain ⟨_, hph, _, _, _, _, _, hok, hne, _, _, _, hwr⟩ := hspec
+  have hw0 : (followFlow prev nm uri sameHost).call.writer = BodyWriter.newNone := by simp [followFlow, Flow.new, hnb]
+  refine ⟨rfl, han, rfl, (hok han).1, ?_, by simp [followFlow, Flow.new], ?_, hne han (by simp [followFlow, Flow.new]), ?_⟩
+  · rw [hph]; simp [followFlow, Flow.new]
+  · exact hwr (by simp [followFlow, Flow.new]) (by simp [followFlow, Flow.new, hnb]) hw0
+  · exact Or.inl ⟨by simp [followFlow, Flow.new, hnb], by simp [followFlow, Flow.new, hnb], rfl, rfl⟩
+
+/-- **C01 (hand-over between exchanges).** When the first exchange of a connection completes — under any
+    schedule — what remains of the server stream is exactly the stream of the next exchange; so the next
+    exchange, run from there under any schedule of its own, has the outcome its own `XSetup` dictates. -/
+theorem C01_pipeline (hack : Bool)
+    (f₁ : Flow) (r₁ : AReq) (w₁ : BodyWriter) (P₁ : Bytes) (I₁ H₁ : Head) (b₁ : BPos) (pre₁ : Bytes)
+    (f₂ : Flow) (r₂ : AReq) (w₂ : BodyWriter) (P₂ : Bytes) (I₂ H₂ : Head) (b₂ : BPos) (pre₂ tail : Bytes)
+    (X₁ : XSetup hack f₁ r₁ w₁ P₁ I₁ H₁ b₁ pre₁) (X₂ : XSetup hack f₂ r₂ w₂ P₂ I₂ H₂ b₂ pre₂)
+    (σ₁ σ₂ : List IoStep)
+    (hd₁ : recvDone (xRun hack P₁ (pre₁ ++ (H₁.enc ++ b₁.enc ++ (pre₂ ++ (H₂.enc ++ b₂.enc ++ tail)))) f₁ σ₁).1 = true)
+    (hd₂ : recvDone (xRun hack P₂
+        ((pre₁ ++ (H₁.enc ++ b₁.enc ++ (pre₂ ++ (H₂.enc ++ b₂.enc ++ tail)))).drop
+          (xRun hack P₁ (pre₁ ++ (H₁.enc ++ b₁.enc ++ (pre₂ ++ (H₂.enc ++ b₂.enc ++ tail)))) f₁ σ₁).2.2.consumed) f₂ σ₂).1 = true) :
+    (xRun hack P₂
+        ((pre₁ ++ (H₁.enc ++ b₁.enc ++ (pre₂ ++ (H₂.enc ++ b₂.enc ++ tail)))).drop
+          (xRun hack P₁ (pre₁ ++ (H₁.enc ++ b₁.enc ++ (pre₂ ++ (H₂.enc ++ b₂.enc ++ tail)))) f₁ σ₁).2.2.consumed) f₂ σ₂).2.2
+      = (recvSpec H₂ b₂).shift pre₂.length := by
+  obtain ⟨_, _, _, _, hrest⟩ := C01_exchange_outcome hack f₁ r₁ w₁ P₁ I₁ H₁ b₁ _ pre₁ X₁ σ₁ hd₁
+  rw [hrest] at hd₂ ⊢
+  exact (C01_exchange_outcome hack f₂ r₂ w₂ P₂ I₂ H₂ b₂ tail pre₂ X₂ σ₂ hd₂).2.2.1
